@@ -32,15 +32,17 @@ def author_eq_for(site):
 
 
 def right_kind_rule(C, rule, site, label):
-    """R2: MutateAll exactly on the false edge of the author comparison"""
+    """R2: MutateAll exactly on the false edge of the author comparison (whatever the idiom: literal right under the
+    comparison, or a right variable assigned under it)"""
+    cases = rights.decision_cases(site["body"], site)
+    if not cases or any(r not in ("MutateSelf", "MutateAll") for r, _, _ in cases):
+        if site["right"] not in ("MutateSelf", "MutateAll", "var:right", "phi"):
+            return None
+    ok = bool(cases) and all((r == "MutateAll") == (e is False) for r, e, _ in cases)
     eq, other = author_eq_for(site)
-    r = site["right"]
-    if r not in ("MutateSelf", "MutateAll"):
-        return None
-    ok = (r == "MutateAll") == (eq is False)
     C.ob(rule, label, ok, site["loc"],
-         "right %s requested with author comparison %s (other key: %s): all-rows right exactly when the row's previous author differs" % (
-             r, {True: "equal", False: "different", None: "absent"}[eq], other))
+         "right requested: %s (other key: %s): all-rows right exactly when the row's previous author differs" % (
+             ", ".join("%s when the author comparison is %s" % (r, {True: "equal", False: "different", None: "absent"}[e]) for r, e, _ in cases), other))
     return eq
 
 
@@ -77,7 +79,9 @@ def run(P, C, tier):
             n = counts.get((b.id, s["kind"]), 0)
             counts[(b.id, s["kind"])] = n + 1
             label = keyf(b, s, "#%d" % n)
-            n_dec += 1
+            # a decision is counted once per (right, author comparison) case it can be made with, so that merging two calls that
+            # differ only in the right into one call with a right variable (or the reverse) does not change the count
+            n_dec += max(1, len(rights.decision_cases(b, s))) if s["kind"] == "can" else 1
             # ---- R1
             if s["kind"] == "can_admin_users":
                 ok, det = flag_chain(P, b, s)
@@ -105,7 +109,7 @@ def run(P, C, tier):
                 else:
                     ok3 = "old" not in key or f.endswith("validate_room_mutation")
                     C.ob("R3", label, ok3, s["loc"], "entering-room decision keyed by %s" % key)
-    C.floor("R1", "decision call sites on the local path", n_dec, 12)
+    C.floor("R1", "decision cases on the local path", n_dec, 12)
     # ---- R6: the decision is taken at the time of the operation, on the documented history function
     C.rule("R6", "every local decision is evaluated at the operation's date (not a stored row's date); the history lookups all have the sibling shape `latest entry at or before the date decides`")
     OPDATE = re.compile(r"(\.node_to_mutate\.date|^‹NodeDelete›\.date|^‹EdgeDelete›\.date|date_utils::now\(\))$")
@@ -166,11 +170,11 @@ def run(P, C, tier):
     if b is not None:
         sites = rights.can_sites(P, b)
         leaving = [s for s in sites if s["room_ineq"]]
-        C.ob("R3", "validate_entity_mutation:leaving-room-checked", len(leaving) >= 2, b.loc(),
-             "a row that changes room is checked in the room it leaves (own-rows and all-rows variants): %d sites" % len(leaving))
-        entering_prev = [s for s in sites if not s["room_ineq"] and author_eq_for(s)[0] is not None]
-        C.ob("R2", "validate_entity_mutation:both-kinds", len({s["right"] for s in entering_prev}) == 2, b.loc(),
-             "the entering-room decision has an own-rows and an all-rows variant")
+        C.ob("R3", "validate_entity_mutation:leaving-room-checked", rights.canonical_kinds(b, leaving) == rights.WANT_KINDS, b.loc(),
+             "a row that changes room is checked in the room it leaves, with the own-rows and the all-rows variant: %s (%d site%s)" % (sorted(rights.canonical_kinds(b, leaving)), len(leaving), "" if len(leaving) == 1 else "s"))
+        entering = [s for s in sites if not s["room_ineq"]]
+        C.ob("R2", "validate_entity_mutation:both-kinds", rights.canonical_kinds(b, entering) == rights.WANT_KINDS, b.loc(),
+             "the entering-room decision has an own-rows and an all-rows variant: %s" % sorted(rights.canonical_kinds(b, entering)))
         # the mutated row keeps or explicitly changes its room: NodeToMutate.room_id = given room or the stored one
         # ---- R4 system entity arms
         arms = rights.str_match_arms(b, "entity")
